@@ -9,6 +9,12 @@ import Qryn.Proofs.SelectorClosed
 import Qryn.Proofs.Leaf
 import Qryn.Proofs.JsonParserClosed
 import Qryn.Gen.GrammarFields
+import Qryn.Proofs.PlanClosedX
+import Qryn.Proofs.FormatClosed
+import Qryn.Proofs.SameShape
+import Qryn.Proofs.SameShapeMetric
+import Qryn.Proofs.TempoClosed
+import Qryn.Proofs.RawSqlCensus
 /-! # C10 — request strings can never change the structure of SQL sent to ClickHouse
 
 Property theorems only. Model: `Qryn.Sql.quote` (= `StringVal.String`, table regenerated from
@@ -338,6 +344,209 @@ theorem grammar_fields_distinct : (Gen.grammarFields.map (fun (l, s, f, _, _) =>
 /-- the parameter inventory has no duplicate entry (a key identifies one taint obligation) -/
 theorem inventory_keys_distinct : Gen.params.Nodup := by decide +kernel
 
+/-! ## The SQL objects of the LogQL pipeline stages: `| regexp`, `| drop`, `| label_format`, `| line_format` -/
+
+/-- **regexp_closed.** `regexMap.String` (planner_parser_regexp.go): for EVERY list of group names, EVERY pattern text and
+    every `ctx.Id()`, the text — `mapFromArrays(arrayFilter(… [<names>] as re_lbls_<id>, … extractAllGroupsHorizontal(string,
+    <pattern>)) as re_vals_<id>), …)` — is the rendering of a segment list in which every name and the pattern are leaves,
+    and that list is well formed for its leaves from every state between tokens. -/
+theorem regexp_closed (names : List Bytes) (re : Bytes) (id : Nat) :
+    renderSegs (regexMapSegs names re id) = regexMapText names re id ∧
+    ∀ q : St, q.ground = true → safeSegs q (regexMapSegs names re id) = true ∧ (runSegs q (regexMapSegs names re id)).1.entry = true :=
+  ⟨render_regexMapSegs names re id, PE_regexMapSegs names re id (LogQL.rawC_regexMid id) (LogQL.rawC_regexPost id)⟩
+
+/-- **drop_closed.** `mapDropFilter.String` (planner_drop.go): for EVERY list of (name, value) pairs — a pair with an empty
+    value renders `k!=<name>`, one with a value `(k, v)!=(<name>, <value>)`; names and values are leaves — around any
+    well-formed labels expression. -/
+theorem drop_closed (m : Expr) (ps : List (Bytes × Bytes)) (hm : wfExpr m = true) :
+    renderSegs (segsExpr (.mapDrop m ps)) = renderExpr (.mapDrop m ps) ∧
+    ∀ q : St, q.ground = true → safeSegs q (segsExpr (.mapDrop m ps)) = true ∧ (runSegs q (segsExpr (.mapDrop m ps))).1.entry = true :=
+  ⟨render_segsExpr _, closedExpr (.mapDrop m ps) (by simpa only [wfExpr] using hm)⟩
+
+/-- **line_format_closed.** The object `LineFormatPlanner.Process` puts in the `string` column — `format(<formatStr>,
+    labels[<f₀>], labels[<f₁>], …)` with `formatStr` = the template's text nodes verbatim and `{n}` per field node, through
+    `NewStringVal`; every field name through `NewStringVal` — for EVERY node list: template text and field names are ANY
+    byte strings (quotes, `{0}`, comment openers …). -/
+theorem line_format_closed (tpl : List LogQL.TplNode) :
+    ∀ q : St, q.entry = true → safeSegs q (LogQL.lineFormatSegs tpl) = true ∧ (runSegs q (LogQL.lineFormatSegs tpl)).1.ground = true :=
+  LogQL.PC_lineFormatSegs tpl
+
+/-- **label_format_closed.** The object `LabelFormatPlanner.Process` puts in the `labels` column — `mapUpdate(<labels>,
+    ([<k₀>,…],[<v₀>,…])::Map(String, String))` with every target name a leaf, a rename source `labels[<src>]` a leaf, a
+    constant's template a `format(…)` as above — for EVERY list of operations, around any expression-like labels text. -/
+theorem label_format_closed (labels : List Seg) (ops : List LogQL.LFOp)
+    (hl : ∀ q : St, q.ground = true → safeSegs q labels = true ∧ (runSegs q labels).1.entry = true) :
+    ∀ q : St, q.entry = true → safeSegs q (LogQL.labelFormatSegs labels ops) = true ∧
+      (runSegs q (LogQL.labelFormatSegs labels ops)).1.ground = true :=
+  LogQL.PC_labelFormatSegs labels ops hl
+
+/-- **plan_closed_logx.** The extended LogQL log planner model `planLogX` (C07: the stages of `planLog` plus `| json
+    l="path",…`, `| regexp`, `| drop` and line / label filters after them, one SELECT per run of stages, `finalize` on or
+    off): for every context with closed table names and every query, the statement is well formed for its leaves and its
+    token structure does not depend on them. Leaves: matcher names/values, needles, regexes, label-filter values, json
+    labels and path name parts, regexp group names and pattern, drop names and values, the NAMES of label filters placed
+    after a parser or drop. Hypothesis on request text: only the names of label filters placed BEFORE the first parser /
+    drop (written `JSONExtractString(labels, '<name>')` unescaped) are `LabelName` tokens. -/
+theorem plan_closed_logx (c : LogQL.Ctx) (fin : Bool) (q : LogQL.LogQueryX) (ht : LogQL.TablesOK c)
+    (hn : ∀ lc ∈ LogQL.labelConds (LogQL.preQuery q), LogQL.condNamesOK lc) :
+    safeSegs .normal (segsSel (LogQL.planLogX c fin q)) = true ∧
+    kinds (renderSel (LogQL.planLogX c fin q)) = kinds (renderSegs ((segsSel (LogQL.planLogX c fin q)).map Seg.shape)) :=
+  have hw := LogQL.wf_planLogX c fin q ht hn
+  ⟨closed_fragments_partial _ hw, render_structure_invariant_sel _ hw⟩
+
+/-- … what `logql_transpiler_v2.Plan` hands to ClickHouse for a whole script (the stages before the first in-process-only
+    one; LIMIT iff none) -/
+theorem plan_closed_script (c : LogQL.Ctx) (ms : List LogQL.Matcher) (ss : List LogQL.ScriptStage) (ht : LogQL.TablesOK c)
+    (hn : ∀ lc ∈ LogQL.labelConds (LogQL.preQuery ⟨ms, LogQL.sqlPrefix ss⟩), LogQL.condNamesOK lc) :
+    safeSegs .normal (segsSel (LogQL.planScript c ms ss)) = true ∧
+    kinds (renderSel (LogQL.planScript c ms ss)) = kinds (renderSegs ((segsSel (LogQL.planScript c ms ss)).map Seg.shape)) :=
+  have hw := LogQL.wf_planScript c ms ss ht hn
+  ⟨closed_fragments_partial _ hw, render_structure_invariant_sel _ hw⟩
+
+/-- the model writes the name of a label filter placed after a parser / drop as a leaf `labels[<name>]`; the code writes
+    `labels['<name>']` with `Sprintf` — for a `LabelName` token (all the grammar admits) these are the same bytes, so the
+    code's text is covered by `plan_closed_logx` -/
+theorem label_getter_raw_is_leaf (name : String) (h : LogQL.LabelClass name) :
+    renderExpr (LogQL.labelGetterMap name) = b "labels['" ++ b name ++ b "']" :=
+  LogQL.labelGetterMap_text name h
+
+/-- **plan_closed_series / plan_closed_values.** `match[]` of `/series` and `/label/{name}/values` (Loki and Prometheus
+    routes end in the same planners): for every list of matchers, and EVERY byte string as the label name of the URL path -/
+theorem plan_closed_series (c : LogQL.Ctx) (ms : List LogQL.Matcher) (ht : LogQL.TablesOK c) :
+    safeSegs .normal (segsSel (LogQL.planSeries c ms)) = true ∧
+    kinds (renderSel (LogQL.planSeries c ms)) = kinds (renderSegs ((segsSel (LogQL.planSeries c ms)).map Seg.shape)) :=
+  have hw := LogQL.wf_planSeries c ms ht
+  ⟨closed_fragments_partial _ hw, render_structure_invariant_sel _ hw⟩
+
+theorem plan_closed_values (c : LogQL.Ctx) (key : Bytes) (ms : Option (List LogQL.Matcher)) (ht : LogQL.TablesOK c) :
+    safeSegs .normal (segsSel (LogQL.planValues c key ms)) = true ∧
+    kinds (renderSel (LogQL.planValues c key ms)) = kinds (renderSegs ((segsSel (LogQL.planValues c key ms)).map Seg.shape)) :=
+  have hw := LogQL.wf_planValues c key ms ht
+  ⟨closed_fragments_partial _ hw, render_structure_invariant_sel _ hw⟩
+
+/-! ## Two requests of the same shape, from a relation on QUERIES -/
+
+/-- **same_shape_logx.** `sameShapeX q₁ q₂` — the two queries are equal up to the contents of their string leaves (operators,
+    stage kinds and order, and/or structure, label-filter names, number literals, json index parts equal; literal-regex flag,
+    number of regexp groups, presence of a drop value equal) — implies that the statements planned for them in the same
+    context have the same token structure: `kinds (render (plan q₁)) = kinds (render (plan q₂))`. Derived by walking the
+    planner (`planLogX_sameShape`), not from equal emptied segment lists. -/
+theorem same_shape_logx (c : LogQL.Ctx) (fin : Bool) (q1 q2 : LogQL.LogQueryX) (ht : LogQL.TablesOK c)
+    (h1 : ∀ lc ∈ LogQL.labelConds (LogQL.preQuery q1), LogQL.condNamesOK lc)
+    (h2 : ∀ lc ∈ LogQL.labelConds (LogQL.preQuery q2), LogQL.condNamesOK lc) (h : LogQL.sameShapeX q1 q2) :
+    kinds (renderSel (LogQL.planLogX c fin q1)) = kinds (renderSel (LogQL.planLogX c fin q2)) :=
+  same_shape_same_structure _ _ (LogQL.wf_planLogX c fin q1 ht h1) (LogQL.wf_planLogX c fin q2 ht h2)
+    (LogQL.planLogX_sameShape c fin q1 q2 h)
+
+/-- … for `planLog` (the C07 fragment without parsers / drop) -/
+theorem same_shape_log (c : LogQL.Ctx) (q1 q2 : LogQL.LogQuery) (ht : LogQL.TablesOK c)
+    (h1 : ∀ lc ∈ LogQL.labelConds q1, LogQL.condNamesOK lc) (h2 : ∀ lc ∈ LogQL.labelConds q2, LogQL.condNamesOK lc)
+    (h : LogQL.sameShape q1 q2) : kinds (renderSel (LogQL.planLog c q1)) = kinds (renderSel (LogQL.planLog c q2)) :=
+  same_shape_same_structure _ _ (LogQL.wf_planLog c q1 (LogQL.atomsOK_of_tables c q1 ht) (LogQL.queryOK_of_names q1 h1))
+    (LogQL.wf_planLog c q2 (LogQL.atomsOK_of_tables c q2 ht) (LogQL.queryOK_of_names q2 h2)) (LogQL.planLog_sameShape c q1 q2 h)
+
+/-- … for whole scripts as `logql_transpiler_v2.Plan` splits them (in-process stages must be the same stage kinds) -/
+theorem same_shape_script (c : LogQL.Ctx) (ms ms' : List LogQL.Matcher) (ss ss' : List LogQL.ScriptStage) (ht : LogQL.TablesOK c)
+    (h1 : ∀ lc ∈ LogQL.labelConds (LogQL.preQuery ⟨ms, LogQL.sqlPrefix ss⟩), LogQL.condNamesOK lc)
+    (h2 : ∀ lc ∈ LogQL.labelConds (LogQL.preQuery ⟨ms', LogQL.sqlPrefix ss'⟩), LogQL.condNamesOK lc)
+    (hm : LogQL.All2 LogQL.Matcher.same ms ms') (hs : LogQL.All2 LogQL.ScriptStage.same ss ss') :
+    kinds (renderSel (LogQL.planScript c ms ss)) = kinds (renderSel (LogQL.planScript c ms' ss')) :=
+  same_shape_same_structure _ _ (LogQL.wf_planScript c ms ss ht h1) (LogQL.wf_planScript c ms' ss' ht h2)
+    (LogQL.planScript_sameShape c ms ms' ss ss' hm hs)
+
+/-- **same_shape_metric.** … for EVERY plan of the metric planner model `planMetric` (range aggregations with and without unwrap,
+    the metrics_15s shortcut, by/without, vector aggregations, topk/bottomk, comparisons, step fix, labels join, finalizer):
+    `sameShapeM q₁ q₂` — equal SKELETONS: the queries agree in everything but the contents of matcher names/values, needles,
+    regexes, label-filter values, by/without label names and the unwrap label; kept are operators, functions, durations, `k`,
+    comparison literals, label-filter names and numbers, the literal-regex flag, whether a needle is empty (it decides the
+    15 s shortcut), whether the unwrap label is `_entry`, the number of by/without labels — implies equal token structure.
+    Proof: `shapeS (planMetric c q) = shapeS (planMetric c q.skel)` (the planner looks at a query through its skeleton only),
+    by pushing `shapeS` through every builder of the planner. -/
+theorem same_shape_metric (c : LogQL.MCtx) (q1 q2 : LogQL.MetricQuery) (h : LogQL.MAtomsOK c) (hn1 : LogQL.MetricNamesOK q1)
+    (hn2 : LogQL.MetricNamesOK q2) (hs : LogQL.sameShapeM q1 q2) :
+    kinds (renderSel (LogQL.planMetric c q1)) = kinds (renderSel (LogQL.planMetric c q2)) :=
+  same_shape_same_structure _ _ (LogQL.wf_planMetric c q1 h hn1) (LogQL.wf_planMetric c q2 h hn2) (LogQL.planMetric_sameShape c q1 q2 hs)
+
+/-- … for `match[]` selectors (series) and label-values requests: any two label names, selectors with the same operators -/
+theorem same_shape_series (c : LogQL.Ctx) (ms ms' : List LogQL.Matcher) (ht : LogQL.TablesOK c) (h : LogQL.All2 LogQL.Matcher.same ms ms') :
+    kinds (renderSel (LogQL.planSeries c ms)) = kinds (renderSel (LogQL.planSeries c ms')) :=
+  same_shape_same_structure _ _ (LogQL.wf_planSeries c ms ht) (LogQL.wf_planSeries c ms' ht) (LogQL.planSeries_sameShape c ms ms' h)
+
+theorem same_shape_values (c : LogQL.Ctx) (key key' : Bytes) (ms ms' : List LogQL.Matcher) (ht : LogQL.TablesOK c)
+    (h : LogQL.All2 LogQL.Matcher.same ms ms') :
+    kinds (renderSel (LogQL.planValues c key (some ms))) = kinds (renderSel (LogQL.planValues c key' (some ms'))) ∧
+    kinds (renderSel (LogQL.planValues c key none)) = kinds (renderSel (LogQL.planValues c key' none)) :=
+  ⟨same_shape_same_structure _ _ (LogQL.wf_planValues c key _ ht) (LogQL.wf_planValues c key' _ ht) (LogQL.planValues_sameShape c key key' ms ms' h).1,
+   same_shape_same_structure _ _ (LogQL.wf_planValues c key _ ht) (LogQL.wf_planValues c key' _ ht) (LogQL.planValues_sameShape c key key' ms ms' h).2⟩
+
+/-! ## Legacy Tempo: `?tags=` search, trace by id, tag values -/
+
+/-- **tempo_search_closed.** The statement `TempoService.Search` sends (`GetTracesQuery` around `SQLIndexQuery.String`: one
+    sub-select per tag of `tags=`, joined on (trace_id, span_id)): for EVERY list of parsed tags — names and values any
+    byte strings, conditions `= != =~ !~` — every window, duration bound, limit and schema-version flag, the text is a
+    segment list well formed for its leaves; dates are digits and `-` for every second, numbers digits. Hypothesis: the two
+    table names are closed text. -/
+theorem tempo_search_closed (s : Tempo.Search) (x : Tempo.Idx) (tags : List Tempo.Tag) (hs : rawE s.tracesTable = true)
+    (hx : rawE x.table = true) :
+    safeSegs .normal (Tempo.searchSegs s (Tempo.idxOf x tags)) = true ∧
+    kinds (Tempo.searchText s x tags) = kinds (renderSegs ((Tempo.searchSegs s (Tempo.idxOf x tags)).map Seg.shape)) := by
+  have h := (Tempo.PE_searchSegs s x tags hs hx .normal rfl).1
+  exact ⟨h, render_structure_invariant _ h⟩
+
+/-- **tempo_trace_closed / tempo_tag_values_closed.** Trace by id (`unhex(<id>)`: the id of the URL is a leaf: ANY bytes) and
+    `/api/search/tag/{tag}/values` (the tag is a leaf) -/
+theorem tempo_trace_closed (table : String) (traceId : Bytes) (startNs endNs : Int) (ht : rawE (b table) = true) :
+    safeSegs .normal (segsSel (Tempo.traceSel table traceId startNs endNs)) = true :=
+  closed_fragments_partial _ (Tempo.wf_traceSel table traceId startNs endNs ht)
+
+theorem tempo_tag_values_closed (table : String) (tag : Bytes) (ht : rawE (b table) = true) :
+    safeSegs .normal (segsSel (Tempo.tagValuesSel table tag)) = true :=
+  closed_fragments_partial _ (Tempo.wf_tagValuesSel table tag ht)
+
+/-! ## Every place where SQL text is written without an escaping constructor -/
+
+/-- **template_closed.** A `fmt.Sprintf` format (or a `+` concatenation) whose constant pieces pass `checkT` for the kinds of
+    its holes yields, for EVERY admissible filling — any byte string in a `leaf` hole (the text `StringVal.String` writes),
+    any expression-like segment list in a `sub` hole, closed text in a `closed` hole, quote-and-backslash-free bytes inside
+    the quotes of an `inLit` hole — a segment list that is well formed for its leaves. -/
+theorem template_closed (kinds : List Hole) (ps : List Piece) (h : checkT kinds ps = true) (fills : List Fill)
+    (hf : FillsOK kinds fills) :
+    ∀ q : St, q.ground = true → safeSegs q (instT fills ps) = true ∧ (runSegs q (instT fills ps)).1.entry = true :=
+  checkT_sound kinds ps h fills hf
+
+/-- **raw_sql_census.** The regenerated inventory of raw-SQL construction sites under reader/ (`Gen.RawSqlSites`: every
+    `fmt.Sprintf`, every `NewRawObject`/`NewSimpleCol`/`NewCol`/`NewWith`/`NewJoin`/`AddSetting` with a non-literal text
+    argument, every `NewCustomCol` closure, every custom `String(ctx *sql.Ctx,…)` method, every concatenation / `+=` /
+    builder write in the SQL-building files) equals the reviewed, classified table — file by file, site by site, over the
+    hash of function, kind, format string and every argument with its origin. A new site, a changed format string or a
+    changed argument breaks this theorem. -/
+theorem raw_sql_census :
+    Gen.RawSqlSites.files.map (fun f => (f.1, f.2.map (·.hash))) = RawSql.Table.files.map (fun f => (f.1, f.2.map (·.hash))) ∧
+    Gen.RawSqlSites.sites.length = RawSql.Table.entries.length :=
+  ⟨RawSql.census_sites, RawSql.census_length⟩
+
+/-- **raw_sites_closed.** Every site the table marks as writing SQL with a format string: the REGENERATED format parses and,
+    with the holes its reviewed argument classes admit, is closed for every admissible filling (`template_closed`); and in
+    the whole table no argument is request text written raw. -/
+theorem raw_sites_closed :
+    (∀ p ∈ Gen.RawSqlSites.sites.zip RawSql.Table.entries, p.2.role = .sql → p.1.kindN ≤ 2 →
+      ∃ hs ps, RawSql.holesOf p.2.cls = some hs ∧ parseFmt p.1.fmtB = some ps ∧
+        ∀ fills, FillsOK hs fills → ∀ q : St, q.ground = true → safeSegs q (instT fills ps) = true ∧ (runSegs q (instT fills ps)).1.entry = true) ∧
+    (∀ e ∈ RawSql.Table.entries, RawSql.Cls.userRaw ∉ e.cls) := by
+  refine ⟨RawSql.sql_sites_closed, ?_⟩
+  have h : RawSql.Table.entries.all (fun e => !e.cls.contains .userRaw) = true := by decide +kernel
+  intro e he hc
+  have := (List.all_eq_true.mp h) e he
+  simp only [Bool.not_eq_true', List.contains_eq_mem, decide_eq_false_iff_not] at this
+  exact this hc
+
+/-- a format that writes its own quotes around an escaped value is refused: `'%s'` with a leaf, two adjacent leaves, a leaf
+    behind a comment opener; `labels['%s']` is accepted only for identifier-restricted text -/
+theorem template_rejects :
+    fmtClosed (b "'%s'") [.leaf] = false ∧ fmtClosed (b "%s%s") [.leaf, .leaf] = false ∧ fmtClosed (b "-- %s") [.leaf] = false ∧
+    fmtClosed (b "labels['%s']") [.leaf] = false ∧ fmtClosed (b "labels['%s']") [.inLit] = true ∧
+    fmtClosed (b "labels[%s]") [.leaf] = true := by decide +kernel
+
 -- non-vacuity: a hostile string in a two-leaf template
 -- `a = '…' AND b = '…'`
 example : safeSegs .normal [.raw [97, 32, 61, 32], .str [39, 59, 45, 45, 92],
@@ -460,5 +669,74 @@ example : safeSegs .normal (segsExpr (.callT "bitAnd" [.anyIfNum [39, 92], .mapA
 example : wfExpr (.raw "a --") = false := by simp only [wfExpr]; decide +kernel
 example : wfExpr (.lit "a'b") = false := by simp only [wfExpr]; decide +kernel
 example : wfExpr (.call "x'" []) = false := by simp only [wfExpr, wfExprs, Bool.and_true]; decide +kernel
+
+-- ### non-vacuity of the theorems added for the pipeline stages, sameShape, Tempo
+private def exQueryX : LogQL.LogQueryX := {
+  matchers := exQuery.matchers,
+  stages := [.fl (.line ⟨.contains, [39, 92], none⟩), .fl (.label (.str "lbl" .eq [39])),
+             .ch (.json [([120, 39], [.key [48, 39, 41, 45, 45], .idx 1]), ([121], [.key [97]])]),
+             .fl (.label (.or (.str "x" .re [39, 41]) (.num "n" .gt ⟨1, [5]⟩))),
+             .ch (.regexp [[103, 39], []] [40, 39, 92, 41]), .ch (.drop [([97, 39], []), ([98], [39, 59, 45, 45])]),
+             .fl (.line ⟨.nre, [39], some ⟨[37, 39], true⟩⟩)] }
+private def exQueryX' : LogQL.LogQueryX := {
+  matchers := [⟨[120], .eq, [97]⟩, ⟨[121, 121], .nre, []⟩],
+  stages := [.fl (.line ⟨.contains, [97], none⟩), .fl (.label (.str "lbl" .eq [])),
+             .ch (.json [([], [.key [], .idx 1]), ([122, 122, 122], [.key [98, 98]])]),
+             .fl (.label (.or (.str "x" .re [97]) (.num "n" .gt ⟨1, [5]⟩))),
+             .ch (.regexp [[], [104]] []), .ch (.drop [([], []), ([99, 99], [100])]),
+             .fl (.line ⟨.nre, [97, 98], some ⟨[], true⟩⟩)] }
+private theorem exNamesX : ∀ lc ∈ LogQL.labelConds (LogQL.preQuery exQueryX), LogQL.condNamesOK lc := by
+  intro lc h
+  simp [LogQL.labelConds, LogQL.preQuery, LogQL.splitPre, exQueryX] at h
+  subst h
+  show LogQL.LabelClass "lbl"
+  unfold LogQL.LabelClass; decide +kernel
+private theorem exNamesX' : ∀ lc ∈ LogQL.labelConds (LogQL.preQuery exQueryX'), LogQL.condNamesOK lc := by
+  intro lc h
+  simp [LogQL.labelConds, LogQL.preQuery, LogQL.splitPre, exQueryX'] at h
+  subst h
+  show LogQL.LabelClass "lbl"
+  unfold LogQL.LabelClass; decide +kernel
+example := plan_closed_logx exCtxCluster true exQueryX exTablesCluster exNamesX
+example := plan_closed_logx exCtx false exQueryX exTables exNamesX
+-- the two queries differ in every string leaf and have the same shape
+private theorem exSame : LogQL.sameShapeX exQueryX exQueryX' := by
+  refine ⟨⟨rfl, rfl, trivial⟩, ⟨rfl, ⟨rfl, rfl⟩, ⟨⟨trivial, rfl, trivial⟩, ⟨trivial, trivial⟩, trivial⟩, ⟨⟨rfl, rfl⟩, rfl, rfl, rfl⟩, rfl,
+    ⟨rfl, rfl, trivial⟩, rfl, trivial⟩⟩
+example := same_shape_logx exCtxCluster true exQueryX exQueryX' exTablesCluster exNamesX exNamesX' exSame
+-- a query with one more stage, or a drop entry with / without a value, is NOT of the same shape
+example : ¬ LogQL.sameShapeX exQueryX ⟨exQueryX.matchers, exQueryX.stages ++ [.ch (.drop [])]⟩ := by
+  intro h
+  simp [LogQL.sameShapeX, LogQL.All2, exQueryX] at h
+example : ¬ LogQL.Changer.same (.drop [([97], [])]) (.drop [([97], [98])]) := by
+  simp [LogQL.Changer.same, LogQL.All2]
+-- `same_shape_metric`: the metric example and a copy with every string leaf replaced
+private def exMetric' : LogQL.MetricQuery :=
+  .topk ⟨true, 3, .agg ⟨.sum, some ⟨true, ["q", ""]⟩,
+    ⟨.unwrap .rate "z", ⟨[⟨[120], .eq, []⟩, ⟨[], .nre, [97]⟩],
+      [.line ⟨.contains, [97], none⟩, .label (.or (.str "lbl" .neq []) (.num "x_1" .ge ⟨5, [5]⟩)),
+       .line ⟨.nre, [98, 98], some ⟨[], true⟩⟩, .label (.str "a" .re [120])]⟩, 60000000000, none, some ⟨false, ["k"]⟩, some ⟨.gt, ⟨1, [5]⟩⟩⟩,
+    none, none⟩, some ⟨.le, ⟨100, []⟩⟩⟩
+example : LogQL.sameShapeM exMetric exMetric' := by decide +kernel
+private theorem exNames' : LogQL.MetricNamesOK exMetric' := by
+  intro lc h
+  simp [LogQL.labelConds, exMetric', LogQL.MetricQuery.rangeAgg, LogQL.TopInner.rangeAgg] at h
+  rcases h with rfl | rfl
+  · exact ⟨by show LogQL.LabelClass "lbl"; unfold LogQL.LabelClass; decide +kernel,
+      by show LogQL.LabelClass "x_1"; unfold LogQL.LabelClass; decide +kernel⟩
+  · show LogQL.LabelClass "a"
+    unfold LogQL.LabelClass; decide +kernel
+example := same_shape_metric exMCtx exMetric exMetric' ⟨exTablesCluster, by decide +kernel⟩ exNames exNames' (by decide +kernel)
+-- Tempo: hostile tag names / values under all four conditions, every optional clause present
+private def exIdx : Tempo.Idx := ⟨b "`qryn`.tempo_traces_attrs_gin", 1700000000000000000, 1700003600000000000, 1000000, 10000000000, 20, true⟩
+private def exSearch : Tempo.Search := ⟨b "tempo_traces", 20, 1700000000000000000, 1700003600000000000, 1000000, 10000000000⟩
+private def exTags : List Tempo.Tag := [⟨[39, 45, 45], .eq, [92, 39]⟩, ⟨[97], .neq, [39, 41, 59]⟩, ⟨[0], .re, [42, 47]⟩, ⟨[], .nre, [39]⟩]
+example := tempo_search_closed exSearch exIdx exTags (by decide +kernel) (by decide +kernel)
+example := tempo_search_closed exSearch exIdx [] (by decide +kernel) (by decide +kernel)
+example := tempo_trace_closed "tempo_traces" [39, 41, 32, 45, 45] 0 5 (by decide +kernel)
+-- line_format / label_format with hostile template text and names
+example := line_format_closed [.text [39, 123, 48, 125, 92], .field [39, 93, 45, 45], .text [0], .field []]
+example := label_format_closed [.raw (b "labels")] [.rename [39] [92, 39], .tmpl [97, 39] [.text [39], .field [93]]]
+  (PE_raw (by decide +kernel))
 
 end Qryn.C10
